@@ -1,0 +1,15 @@
+//go:build verif
+
+package vm
+
+import "github.com/go-python/gpython/py"
+
+// VerifInstr, when set, is called before every instruction is dispatched
+// (verification hook; compiled in only with -tags verif).
+var VerifInstr func(f *py.Frame, op OpCode, arg int32, pc int32)
+
+func verifInstr(f *py.Frame, op OpCode, arg int32, pc int32) {
+	if VerifInstr != nil {
+		VerifInstr(f, op, arg, pc)
+	}
+}
